@@ -140,12 +140,15 @@ ProgResetStatus ==
                  infoOf, prevInfoOf, resOf, printed, sol, conf>>
 
 \* the checkpoint's verdict: 0 NoUpdate, 1 Update(Dual), 2 Fail
+\* On Fail the loop also zeroes alpha, so that the extra status row printed after the
+\* loop describes the restored iterate (repair of finding F6, see DESIGN.md section 6).
 CkptProgress(out) ==
   /\ \/ (pc = "CkptProg" /\ status # "InsufficientProgress" /\ out = 0 /\ pc' = "Exit"
+          /\ UNCHANGED <<scaling, alphaZero>>)
+     \/ (pc = "CkptProg3" /\ out = 1 /\ scaling' = "Dual" /\ pc' = "Scalars" /\ UNCHANGED alphaZero)
+     \/ (pc = "CkptProg2" /\ ~CanSwitch /\ out = 2 /\ pc' = "Exit" /\ alphaZero' = TRUE
           /\ UNCHANGED scaling)
-     \/ (pc = "CkptProg3" /\ out = 1 /\ scaling' = "Dual" /\ pc' = "Scalars")
-     \/ (pc = "CkptProg2" /\ ~CanSwitch /\ out = 2 /\ pc' = "Exit" /\ UNCHANGED scaling)
-  /\ UNCHANGED <<iter, infoIter, status, alphaZero, kktok, stepcls, cur, prev, nextId,
+  /\ UNCHANGED <<iter, infoIter, status, kktok, stepcls, cur, prev, nextId,
                  infoOf, prevInfoOf, resOf, printed, sol, conf>>
 
 -----------------------------------------------------------------------------
@@ -334,8 +337,8 @@ PrintShape ==
     /\ \A i \in 1..(Len(printed) - 1) : printed[i][1] <= printed[i+1][1]
     /\ printed[Len(printed)][1] = sol.iterations
 
-\* C20 (strict reading): the last row shows the figures of the returned iterate.
-\* The design violates this on the rollback-and-stop path; see DESIGN.md F6.
+\* C20: the last row shows the figures of the returned iterate.  (Before the repair of F6
+\* this failed on the rollback-and-stop path.)
 LastRowMatches == pc = "Done" => printed[Len(printed)][2] = sol.iterate
 
 \* C04: every solve terminates
